@@ -43,6 +43,7 @@ type Event struct {
 	Pos       int            `json:"pos"`
 	BatchSize int            `json:"batch"`
 	Multipart bool           `json:"multipart,omitempty"`
+	Boundary  string         `json:"boundary,omitempty"` // multipart calls: the delimiter the gateway chose
 	OpKw      string         `json:"kw"`
 	OpName    string         `json:"op_name,omitempty"`
 	Query     string         `json:"query"`
@@ -259,7 +260,11 @@ func NewService(name, url, sdl string, data *gen.Data, log *Log) (*Service, erro
 
 // Eval evaluates one request and logs the event.
 func (s *Service) Eval(req *engine.Request, callID int64, pos, batch int, mp bool, files []FileInfo) (map[string]any, *Event) {
-	ev := &Event{Service: s.Name, CallID: callID, Pos: pos, BatchSize: batch, Multipart: mp,
+	return s.evalWith(req, callID, pos, batch, mp, files, "")
+}
+
+func (s *Service) evalWith(req *engine.Request, callID int64, pos, batch int, mp bool, files []FileInfo, boundary string) (map[string]any, *Event) {
+	ev := &Event{Service: s.Name, CallID: callID, Pos: pos, BatchSize: batch, Multipart: mp, Boundary: boundary,
 		Query: req.Query, Variables: req.Variables, OpName: req.OperationName, Files: files}
 	resp := map[string]any{}
 	doc, op, err := engine.Prepare(s.Schema, *req)
@@ -501,7 +506,7 @@ func (s *Service) ServeBytes(req *http.Request, contentType string, body []byte)
 	resps := make([]map[string]any, len(wires))
 	evs := make([]*Event, len(wires))
 	for i, r := range call.Requests {
-		resps[i], evs[i] = s.Eval(r, callID, i, len(wires), call.Multipart, files)
+		resps[i], evs[i] = s.evalWith(r, callID, i, len(wires), call.Multipart, files, params["boundary"])
 	}
 	if s.After != nil {
 		defer s.After(call)
